@@ -227,6 +227,13 @@ type runStats struct {
 
 // randomRun: one recorded run. nByz Byzantine replicas (the last indices) follow a strategy; the network loses, delays,
 // duplicates and reorders; root-chain notifications (advancing and duplicated) arrive at random replicas mid-height.
+var lastRun struct {
+	n       *bftsim.Net
+	correct map[int]bool
+	byz     int
+	powers  []uint64
+}
+
 func randomRun(r *sim.Rng, ticks int) (lit string, meta map[string]any, rs runStats) {
 	powersets := [][]uint64{{100, 100, 100, 100}, {100, 100, 100, 100}, {10, 20, 30, 40, 25, 1}, {300, 100, 100, 100, 100, 100, 100}, {1, 1, 1}}
 	powers := powersets[r.Intn(len(powersets))]
@@ -371,6 +378,7 @@ func randomRun(r *sim.Rng, ticks int) (lit string, meta map[string]any, rs runSt
 			}
 		}
 	}
+	lastRun.n, lastRun.correct, lastRun.byz, lastRun.powers = n, correct, byzIdx, powers
 	a, b := n.Disagreement(keys(correct))
 	rs = runStats{Actions: len(rc.trace), Commits: rc.commits, Strategy: strat, Disagree: a != nil}
 	_ = b
